@@ -10,9 +10,43 @@ EXPLANATION = (
     "exception; (W2) every source of deny_unknown_fields = true is the `additionalProperties: false` arm, a value propagated "
     "from one such struct, or the uninhabited enum — a flag OR-ed across the variants of one enum closes its open siblings and "
     "is reported; (W3) code that compares a string with minLength/maxLength counts chars (shared with C05.T4); (W4) when the "
-    "allocator returns an existing id because a type of that name is already registered, the two entries were compared."
+    "allocator returns an existing id because a type of that name is already registered, the two entries were compared; "
+    "(D1) each tagged-enum recogniser demands what serde's representation demands of every instance: the single member of an "
+    "externally tagged object variant is required, an internal tag is looked for among required members only, and every member "
+    "(tag and content) of an adjacently tagged branch is required; (W5) where one schema's sibling subschemas (tuple items, "
+    "variants, flattened members) are converted in a loop, the type-name hint handed to the converter depends on the element "
+    "(its index or name) or is Name::Unknown — a loop-constant hint makes the siblings collide on one registered name."
 )
 ASSUMPTIONS = ["serde tag inference, untagged ordering and shadowing are not decided"]
+
+
+def closed_flag_joins(c, h):
+    """Assignments to the local bool that `h` hands to TypeEntryEnum::from_metadata as deny_unknown_fields.
+    -> [(node, text, 'or' | 'overwrite')]; `x |= e` and `x = true` can only close, anything else can re-open."""
+    from lib import scope_binding
+    anc_of = {}
+    for n, a in walk(h["body"]):
+        anc_of[id(n)] = a
+    flags = []
+    for n, _ in nodes(h["body"], "call"):
+        if re.search(r"TypeEntryEnum::from_metadata$", n.get("fn", "")):
+            for a in n["args"]:
+                if a.get("k") == "path" and a.get("res") == "local" and c.ty(a.get("ty")) == "bool":
+                    b = scope_binding(h, anc_of[id(a)], a["path"], a)
+                    if b and b[0] == "let":
+                        flags.append(b[1])
+    out = []
+    for n, anc in walk(h["body"]):
+        if n.get("k") in ("assign", "assignop"):
+            l = strip_refs(n["l"])
+            if l.get("k") == "path" and l.get("res") == "local":
+                b = scope_binding(h, anc, l["path"], n)
+                if b and b[0] == "let" and any(b[1] is f for f in flags):
+                    if n.get("k") == "assignop":
+                        out.append((n, "%s |= %s" % (src(n["l"]), src(n["r"])), "or" if n.get("op") in ("BitOrAssign", "BitOr") else "overwrite"))
+                    else:
+                        out.append((n, "%s = %s" % (src(n["l"]), src(n["r"])), "or" if src(n["r"]) == "true" else "overwrite"))
+    return out
 
 
 def run(facts, rep, tier):
@@ -81,14 +115,15 @@ def run(facts, rep, tier):
                         rep.ob("C02.W2", "closed-source:%s/additionalProperties-false" % h["fn"], ok, "closed under `%s`" % g if ok else "deny_unknown_fields becomes true in arm `%s` guard `%s`: not the additionalProperties:false case" % (psrc(arm["pat"]), g), arm.get("sp"))
                     elif val != "false":
                         rep.ob("C02.W2", "closed-source:%s/other" % h["fn"], False, "deny_unknown_fields computed as `%s`" % val, arm.get("sp"))
-        # (b) joins across variants
-        for n, anc in walk(h["body"]):
-            if n.get("k") in ("assign", "assignop") and "deny" in src(n["l"]):
-                n_src += 1
-                in_iter = [a for a in anc if a.get("k") == "closure"]
-                how = "|=" if n.get("k") == "assignop" else "= " + src(n["r"])
+        # (b) joins across variants: assignments to the mutable flag that is handed to the enum constructor
+        for n, how, kind in closed_flag_joins(c, h):
+            n_src += 1
+            if kind == "or":
                 rep.ob("C02.W2", "closed-source:%s/or-join" % h["fn"], False,
-                       "`%s %s` inside the loop over the variants: one closed variant closes every variant of the enum (the attribute is on the container), so valid instances of the open variants are rejected" % (src(n["l"]), how), n.get("sp"))
+                       "`%s` inside the loop over the variants: one closed variant closes every variant of the enum (the attribute is on the container), so valid instances of the open variants are rejected" % how, n.get("sp"))
+            else:
+                rep.ob("C02.W2", "closed-source:%s/last-wins" % h["fn"], False,
+                       "`%s` inside the loop over the variants: the container attribute follows whichever variant is converted last" % how, n.get("sp"))
         # (c) literal true handed to an enum/struct constructor
         for n, _ in nodes(h["body"], "call"):
             if re.search(r"TypeEntry(Enum|Struct)::from_metadata$", n.get("fn", "")):
@@ -129,3 +164,64 @@ def run(facts, rep, tier):
         rep.ob("C02.W4", "reused-name-is-same-type:%s" % h["fn"], compared,
                "the registered entry is compared with the new one before its id is reused" if compared else
                "a type whose derived name is already registered silently reuses the registered type without comparing structure: two different inline schemas that derive the same name share one type, and valid instances of the second are rejected", n.get("sp"))
+
+    # ------------------------------------------------------------ D1 recogniser preconditions
+    recog = {}
+    for h in c.user_fns():
+        for n, _ in walk(h["body"]):
+            if n.get("k") in ("path", "struct") and n.get("res", "ctor") == "ctor" and "rest" not in n:
+                m = re.search(r"EnumTagType::(External|Internal|Adjacent)$", n.get("path", ""))
+                # a recogniser takes the subschemas of a oneOf/anyOf and builds the tagged enum
+                if m and any("[schemars::schema::Schema]" in t for t in c.fns.get(h["fn"], {}).get("inputs", [])):
+                    recog.setdefault(m.group(1), h)
+    rep.floor("C02.D1", "tagged-enum recognisers (constructors of EnumTagType::External/Internal/Adjacent)", len(recog), 3)
+    for kind, h in sorted(recog.items()):
+        cn1 = Canon(c, h, 1)
+        arm_guards = [cn1.r(a["guard"]) for n, _ in nodes(h["body"], "match") if n.get("src") == "normal" for a in n["arms"] if a.get("guard")]
+        filters = [cn1.r(n["args"][0]) for n, _ in nodes(h["body"], "mcall") if n["name"] in ("filter", "filter_map", "take_while") and n.get("args")]
+        ifs = [cn1.r(n["cond"]) for n, _ in nodes(h["body"], "if")]
+        if kind == "External":
+            ok = any(re.search(r"\.required\.len\(\) Eq 1\)", g) and re.search(r"\.properties\.len\(\) Eq 1\)", g) for g in arm_guards)
+            why = "object variant: exactly one property and it is required (`required.len() == 1 && properties.len() == 1`)"
+            bad = "an object subschema is taken as an externally tagged variant without demanding that its single member is required: `{}` is valid under the schema but not a variant"
+        elif kind == "Internal":
+            ok = any(re.search(r"\.required\.contains\(elem<\S*\.properties\.iter\(\)>\.0\)", g) for g in filters)
+            why = "tag candidates are filtered by `required.contains(name)`"
+            bad = "the internal tag is chosen among members that need not be required: an instance without it is valid but cannot be deserialized"
+        else:
+            ok = any(re.search(r"\.properties\.len\(\) Eq \S*\.required\.len\(\)\)", g) or re.search(r"\.required\.len\(\) Eq \S*\.properties\.len\(\)\)", g) for g in arm_guards + ifs)
+            why = "a branch qualifies only if all of its members are required (`properties.len() == required.len()`)"
+            bad = "a branch whose content member is optional is taken as adjacently tagged: serde demands the content member of a newtype/struct variant, so a valid instance without it is rejected"
+        rep.ob("C02.D1", "recogniser-precondition:%s" % kind, ok, why if ok else bad, h.get("sp"))
+
+    # ------------------------------------------------------------ W5 sibling name hints are distinct
+    n_sites = 0
+    for h in c.user_fns():
+        cn5 = None
+        for n, anc in walk(h["body"]):
+            if n.get("k") not in ("call", "mcall") or not n.get("fn"):
+                continue
+            f = c.fns.get(n["fn"])
+            if not f or f.get("derived"):
+                continue
+            ins = f.get("inputs", [])
+            if not (any(t.endswith("Name") for t in ins) and any(t.replace("&", "").strip().endswith("schema::Schema") for t in ins)):
+                continue
+            if not any(a.get("k") == "closure" or (a.get("k") == "match" and a.get("src") == "for") for a in anc):
+                continue
+            cn5 = cn5 or Canon(c, h, 4)
+            args = list(n["args"])
+            name_args = [a for a in args if (c.ty(a.get("ty")) or "").endswith("Name")]
+            schema_args = [a for a in args if (c.ty(a.get("ty")) or "").replace("&", "").strip().endswith("schema::Schema")]
+            if not name_args or not schema_args:
+                continue
+            if "elem<" not in cn5.r(schema_args[0]):
+                continue  # not a per-element conversion
+            n_sites += 1
+            nm = cn5.r(name_args[0])
+            ok = "elem<" in nm or nm == "Name::Unknown"
+            key = "%s->%s#%d" % (h["fn"], n["fn"].split("::")[-1], sum(1 for o in rep.obligations if o["key"].startswith("C02.W5/sibling-hint-distinct:%s->%s#" % (h["fn"], n["fn"].split("::")[-1]))))
+            rep.ob("C02.W5", "sibling-hint-distinct:" + key, ok,
+                   "the name hint depends on the element" if "elem<" in nm else "no name hint (Name::Unknown)" if ok else
+                   "every element of the loop is converted under the same name hint `%s`: two different sibling schemas derive one type name and the second silently reuses the first one's type, so its valid instances are rejected or rewritten" % nm[:80], n.get("sp"))
+    rep.floor("C02.W5", "per-element conversions with a name hint", n_sites, 5)
